@@ -86,8 +86,9 @@ def signed_message_structure(key: Any, message: Any, *, text: Str):
 @contract('bitcoin.signmessage:VerifyMessage', name='verify_rejects_others', prop=P)
 def verify_rejects_others(address: Any, message: Any, sig: Any, *, expect: Bool):
     """BOUNDED (OpenSSL): true for the signer's address and message, false for another key's address (either
-    compression) and for a perturbed message"""
-    option(bounded=160, chains=True)
+    compression) and for a perturbed message - also directly after the same signature has been verified with the
+    genuine (or an altered) message or address"""
+    option(bounded=240, chains=True)
     ensures(result == expect)
 
 
@@ -118,6 +119,22 @@ def _build_c14(inputs, chain):
         # the P2SH address carrying the same 20 bytes is a different address
         return {'address': _b58check(bytes([CHAINS[chain]['SCRIPT_ADDR']]) + ec.hash160(key.pub)), 'message': msg, 'sig': sig,
                 'expect': False}
+    if mode in ('after_genuine', 'after_altered', 'after_otherkey'):
+        # verification has no memory: the verdict on (address, message, signature) does not depend on what was
+        # verified before (a cache keyed by part of the triple would show here)
+        from bitcoin.signmessage import VerifyMessage
+        addr = ref_address(key.pub, chain)
+        other = CKey(bytes(inputs['secret2']['__bytes__']), inputs['compressed2'])
+        alt = BitcoinMessage(inputs['text2'])
+        if mode == 'after_genuine':
+            VerifyMessage(addr, msg, sig)
+            return {'address': addr, 'message': alt, 'sig': sig, 'expect': inputs['text2'] == text}
+        if mode == 'after_altered':
+            VerifyMessage(addr, alt, sig)
+            return {'address': addr, 'message': msg, 'sig': sig, 'expect': True}
+        VerifyMessage(addr, msg, sig)
+        return {'address': ref_address(other.pub, chain), 'message': msg, 'sig': sig,
+                'expect': bytes(other.pub) == bytes(key.pub)}
     if mode == 'garbage':
         return {'address': inputs['text2'] + 'notanaddress', 'message': msg, 'sig': sig, 'expect': False}
     if mode == 'othercompression':
@@ -147,7 +164,8 @@ _replay.GENERATORS.update({
                                              'compressed': rng.random() < 0.5, 'text': rng.choice(_TEXTS)},
     'verify_rejects_others': lambda rng: (lambda t: {'__build__': 'c14', '__kind__': 'verify', 'secret': _bj(_secret(rng)),
                                                      'compressed': rng.random() < 0.5, 'text': t,
-                                                     'mode': rng.choice(['same', 'otherkey', 'othercompression', 'othermsg', 'othermsg', 'p2sh_same_hash', 'garbage']),
+                                                     'mode': rng.choice(['same', 'otherkey', 'othercompression', 'othermsg', 'othermsg', 'p2sh_same_hash', 'garbage',
+                                                                         'after_genuine', 'after_genuine', 'after_altered', 'after_otherkey']),
                                                      'secret2': _bj(_secret(rng)), 'compressed2': rng.random() < 0.5,
                                                      'text2': _perturb(rng, t)})(rng.choice(_TEXTS)),
 })
